@@ -1,9 +1,85 @@
-(* Props/C06.v — DRAFT (completed when Mini/ProofsPhrase.v and Mini/ProofsZap.v are complete). *)
+(* Props/C06.v — Seeded semantic faults are reported at the fault site: the theorems about the REFERENCE static
+   semantics of the MiniVHDL fragment (Mini/Sem.v).  `blame_program p` is the node and class at which the reference
+   rejects p (the first position, in elaboration order, at which no rule applies).  The analyser itself is tied to the
+   reference only by the correspondence run of checks/c06.py: the claim is PARTIAL (evidence level `other`).
+   Statements only; proofs in Mini/ProofsPhrase*.v, Mini/ProofsZap*.v, Mini/MiniProofs.v. *)
 From Coq Require Import List NArith Arith Bool.
 Import ListNotations.
-From RH Require Import Mini.Syntax Mini.Sem Mini.Gen Mini.Walk Mini.Faults Mini.MiniProofs.
+From RH Require Import Mini.Syntax Mini.Sem Mini.Gen Mini.Walk Mini.Faults Mini.Rewrites Mini.MiniProofs.
 Open Scope N_scope.
 
-Theorem C06_gen_valid : forall choices, Valid (gen_program choices).
-Proof. exact gen_valid. Qed.
-Print Assumptions C06_gen_valid.
+(* One fault of the catalogue (any of the 13 classes) planted at an eligible site of a Valid program (with pairwise
+   different node ids) makes the program invalid ... *)
+Theorem C06_planted_invalid : forall p f st,
+  Valid p -> NoDup (nids_program p) -> In st (sites f p) -> ~ Valid (plant st p).
+Proof. exact planted_invalid. Qed.
+
+(* ... and localised: the reference blames exactly the node `expect` names — the planted token (for a missing
+   association the name of the instantiated unit, for a call that matches no overload the callee, for a
+   signal/variable mix-up the target) — with the class of the fault. *)
+Theorem C06_blame_is_site : forall p f st,
+  Valid p -> NoDup (nids_program p) -> In st (sites f p) ->
+  blame_program (plant st p) = Some (expect f st p).
+Proof. exact planted_blame. Qed.
+
+(* by kind of plant *)
+Theorem C06_zap_blame : forall p s k x c,
+  Valid p -> NoDup (nids_program p) -> In (s, k, x) (occs_program p) -> cls_of_okind k = Some c ->
+  blame_program (zap s p) = Some (s, c).
+Proof. exact zap_blame. Qed.
+Theorem C06_dup_blame : forall p s,
+  Valid p -> NoDup (nids_program p) -> In s (dup_sites p) ->
+  blame_program (dup s p) = Some (s + (max_nid p + 1), Duplicate).
+Proof. exact dup_blame. Qed.
+Theorem C06_phrase_blame : forall p f st,
+  Valid p -> NoDup (nids_program p) -> phrase_class f -> In st (sites f p) ->
+  blame_program (plant st p) = Some (expect f st p).
+Proof. exact plant_phrase_blame. Qed.
+
+(* Design units that do not contain the plant site are textually unchanged (no plant adds, removes or moves units),
+   and all units before the faulty one are accepted in the planted program as they were in the original. *)
+Theorem C06_independent_units_unchanged : forall p st,
+  (forall k l u, nth_error (flat_units p) k = Some (l, u) -> ~ In (site_nid st) (nids_dunit u) ->
+                 nth_error (flat_units (plant st p)) k = Some (l, u)) /\
+  (forall k, Valid p ->
+     (forall j l u, (j < k)%nat -> nth_error (flat_units p) j = Some (l, u) -> ~ In (site_nid st) (nids_dunit u)) ->
+     prefix_ok (plant st p) k).
+Proof.
+  intros p st. split.
+  - intros k l u. exact (plant_other_units_unchanged p st k l u).
+  - intros k HV H. exact (plant_prefix_ok p st k HV H).
+Qed.
+
+(* the generated programs satisfy the hypotheses (the second one is decided on every generated program by the check) *)
+Theorem C06_gen_hyps : forall choices, nodup_nids (gen_program choices) = true ->
+  Valid (gen_program choices) /\ NoDup (nids_program (gen_program choices)).
+Proof. exact gen_hyps. Qed.
+
+(* zap_blame and dup_blame were false for the first definitions of the reference (a formal associated both positionally
+   and by name went unchecked) and of the catalogue (a component with a port named like it): the two counterexamples,
+   kept as regressions: the first program is now rejected, the second has no duplicate-declaration site *)
+Example C06_old_refuted_regressions :
+  check_program zap_cex = Bad 8 Other /\ (check_program dup_cex = Ok tt /\ dup_sites dup_cex = []).
+Proof. exact (conj zap_cex_now_rejected dup_cex_no_site). Qed.
+
+(* Non-vacuity: the generated example program (two libraries, overloads) has a plant site of every fault class. *)
+Example C06_example :
+  let p := example_program in
+  valid_b p = true /\ nodup_nids p = true /\
+  forallb (fun f => negb (Nat.eqb (length (sites f p)) 0)) all_fclasses = true.
+Proof. exact example_C06. Qed.
+
+Check C06_planted_invalid : forall p f st,
+  Valid p -> NoDup (nids_program p) -> In st (sites f p) -> ~ Valid (plant st p).
+Check C06_blame_is_site : forall p f st,
+  Valid p -> NoDup (nids_program p) -> In st (sites f p) -> blame_program (plant st p) = Some (expect f st p).
+
+Print Assumptions C06_planted_invalid.
+Print Assumptions C06_blame_is_site.
+Print Assumptions C06_zap_blame.
+Print Assumptions C06_dup_blame.
+Print Assumptions C06_phrase_blame.
+Print Assumptions C06_independent_units_unchanged.
+Print Assumptions C06_gen_hyps.
+Print Assumptions C06_old_refuted_regressions.
+Print Assumptions C06_example.
